@@ -166,6 +166,9 @@ Inductive scmd :=
 | CMKAssign (t s : nat) | CMKFun (f : sfun) (t s : nat)
 | CMOp (noalias : bool) (o : sop) (t s : nat)
 | CMScal (o : sop) (t : nat) (c : Z)
+| CSpmv (noalias : bool) (o : sop) (t a v : nat) (tr : bool)   (* dense vector t op= prod(A, v) resp. prod(trans(A), v),
+                                                                   A compressed; documented value only (the sparse gemv
+                                                                   kernel itself is not modelled) *)
 | CMFill (id seed : nat)                     (* dense matrix: m(i,j) = ((7 i + 13 j + seed) mod 11) - 5 *)
 | CMBlk (f : option sfun) (t s : nat)        (* kernels::assign(dense matrix t, dense matrix s [, F]) *)
 | CXV (noalias : bool) (o : sop) (t : nat) (e : sxv)     (* vector target op= sparse vector expression over slots *)
@@ -215,6 +218,17 @@ Definition run_cmd (fx : bool) (s : sstore) (c : scmd) : sstore * (bool * nat) :
   | CMKFun f t src => (setm s t (km_fun (sf_app f) (sf_rzi f) (getm s t) (getm s src)), (false, t))
   | CMOp na o t src => (setm s t (m_op na o (getm s t) (getm s src)), (false, t))
   | CMScal o t c => (setm s t (m_scal o (getm s t) c), (false, t))
+  | CSpmv na o t a v tr =>
+      (setv s t (match getv s t, getm s a, getv s v with
+                 | VD d, MS rm m, VD x =>
+                     let entry := fun i j => if Bool.eqb rm tr then smden m j i else smden m i j in   (* logical (i,j) of A or trans(A) *)
+                     let res := map (fun i => fold_right (fun j acc => entry i j * nth j x 0 + acc) 0 (seq 0 (length x)))
+                                    (seq 0 (length d)) in
+                     VD (match o with
+                         | SSet => res | SAdd => map2 Z.add d res | SSub => map2 Z.sub d res | SMul => map2 Z.mul d res
+                         end)
+                 | tv, _, _ => tv
+                 end), (true, t))
   | CMFill id seed =>
       (setm s id (match getm s id with
                   | MD rt d =>
